@@ -145,7 +145,7 @@ func (lf *layoutFacts) checkDecVsSpec(p *Program, r *Result, rule string) {
 	if fd := findFuncDecl(lf.g, "loadChunk"); fd != nil {
 		// there are two loadChunk functions (lexer func, iterator method); pick the package-level one
 		for fn, d := range lf.g.decls {
-			if fn.Name() == "loadChunk" && d.Recv == nil {
+			if fn.Name() == "loadChunk" && (d.Recv == nil || recvTypeName(lf.g, d) == "Lexer") {
 				fd = d
 			}
 		}
@@ -291,44 +291,62 @@ func (lf *layoutFacts) absoluteHeaderReads(fd *ast.FuncDecl, skinds []string) (d
 		kind string
 	}
 	var reads []rd
-	ast.Inspect(fd.Body, func(n ast.Node) bool {
-		ce, ok := n.(*ast.CallExpr)
-		if !ok {
-			return true
-		}
-		name := ""
-		if fn := g.calleeOf(ce); fn != nil {
-			name = fn.Name()
-		}
-		kind := map[string]string{"Uint64": "u64", "Uint32": "u32", "Uint16": "u16", "getUint64": "u64", "getUint32": "u32", "getUint16": "u16"}[name]
-		if kind == "" || len(ce.Args) == 0 {
-			return true
-		}
-		constOf := func(e ast.Expr) (int, bool) {
-			if e == nil {
-				return 0, true
-			}
-			if tv, ok := g.info.Types[e]; ok && tv.Value != nil {
-				if v, ok := constant.Int64Val(constant.ToInt(tv.Value)); ok {
-					return int(v), true
+	// the function and the unexported helpers it hands the header buffer to
+	bodies := []*ast.FuncDecl{fd}
+	seenDecl := map[*ast.FuncDecl]bool{fd: true}
+	for i := 0; i < len(bodies) && i < 6; i++ {
+		ast.Inspect(bodies[i].Body, func(n ast.Node) bool {
+			if ce, ok := n.(*ast.CallExpr); ok {
+				if fn := g.calleeOf(ce); fn != nil && !fn.Exported() && !strings.HasPrefix(fn.Name(), "get") {
+					if hd := g.decls[fn]; hd != nil && hd.Body != nil && !seenDecl[hd] && hd.Recv == nil {
+						seenDecl[hd] = true
+						bodies = append(bodies, hd)
+					}
 				}
 			}
-			return 0, false
-		}
-		switch {
-		case strings.HasPrefix(name, "get") && len(ce.Args) == 2:
-			if k, ok := constOf(ce.Args[1]); ok {
-				reads = append(reads, rd{k, kind})
+			return true
+		})
+	}
+	for _, body := range bodies {
+		ast.Inspect(body.Body, func(n ast.Node) bool {
+			ce, ok := n.(*ast.CallExpr)
+			if !ok {
+				return true
 			}
-		case len(ce.Args) == 1:
-			if se, ok := ce.Args[0].(*ast.SliceExpr); ok {
-				if k, ok := constOf(se.Low); ok {
+			name := ""
+			if fn := g.calleeOf(ce); fn != nil {
+				name = fn.Name()
+			}
+			kind := map[string]string{"Uint64": "u64", "Uint32": "u32", "Uint16": "u16", "getUint64": "u64", "getUint32": "u32", "getUint16": "u16"}[name]
+			if kind == "" || len(ce.Args) == 0 {
+				return true
+			}
+			constOf := func(e ast.Expr) (int, bool) {
+				if e == nil {
+					return 0, true
+				}
+				if tv, ok := g.info.Types[e]; ok && tv.Value != nil {
+					if v, ok := constant.Int64Val(constant.ToInt(tv.Value)); ok {
+						return int(v), true
+					}
+				}
+				return 0, false
+			}
+			switch {
+			case strings.HasPrefix(name, "get") && len(ce.Args) == 2:
+				if k, ok := constOf(ce.Args[1]); ok {
 					reads = append(reads, rd{k, kind})
 				}
+			case len(ce.Args) == 1:
+				if se, ok := ce.Args[0].(*ast.SliceExpr); ok {
+					if k, ok := constOf(se.Low); ok {
+						reads = append(reads, rd{k, kind})
+					}
+				}
 			}
-		}
-		return true
-	})
+			return true
+		})
+	}
 	if len(reads) < 3 {
 		return "", false, false
 	}
@@ -390,4 +408,16 @@ func (g *goLayouts) delegateEncoder(fd *ast.FuncDecl, depth int) *encResult {
 		return true
 	})
 	return found
+}
+
+// recvTypeName: name of the receiver's named type of a method declaration ("" for functions).
+func recvTypeName(g *goLayouts, d *ast.FuncDecl) string {
+	if d.Recv == nil || len(d.Recv.List) != 1 {
+		return ""
+	}
+	nt, _ := structOf(g.info.TypeOf(d.Recv.List[0].Type))
+	if nt == nil {
+		return ""
+	}
+	return nt.Obj().Name()
 }
